@@ -5,3 +5,4 @@ import Rosmar.Gen.TieSqlWcas
 import Rosmar.Gen.TieSqlRemove
 import Rosmar.Gen.TieSqlTouch
 import Rosmar.Gen.TieSqlXattr
+import Rosmar.Gen.TieSqlRead
